@@ -19,7 +19,10 @@ import (
 	"time"
 
 	"github.com/aergoio/aergo/v2/config"
+	"github.com/aergoio/aergo/v2/contract/system"
+	"github.com/aergoio/aergo/v2/internal/enc/base58"
 	"github.com/aergoio/aergo/v2/internal/enc/proto"
+	"github.com/aergoio/aergo/v2/state/statedb"
 	"github.com/aergoio/aergo/v2/types"
 	"github.com/aergoio/aergo/v2/zz_verif/simclock"
 	"github.com/aergoio/aergo/v2/zz_verif/simdisk"
@@ -31,7 +34,7 @@ type World struct{ Scratch string }
 
 func (w *World) Name() string { return "chain" }
 func (w *World) Props() []string {
-	return []string{"C05", "C06", "C07", "C18", "C19", "C03", "C04", "C17"}
+	return []string{"C05", "C06", "C07", "C18", "C19", "C03", "C04", "C17", "C15"}
 }
 
 // forge kinds
@@ -263,7 +266,11 @@ func (w *World) Run(x *simkit.Ctx) {
 		nblk := len(e.blocks)
 		switch r.Pick(16, 22, 5, 30, 8*forge, 2, 3) {
 		case 0: // tx to a subset of builders
-			return &simkit.Step{Op: "tx", K: []int{1 + r.Intn(1<<uint(nb)-1), r.Intn(nacc), r.Intn(nacc), r.Pick(8, 1, 1) - 0}, V: int64(1 + r.Intn(900))}
+			kind := r.Pick(8, 1, 1)
+			if prop == "C15" {
+				kind = r.Pick(4, 1, 0, 4, 4)
+			}
+			return &simkit.Step{Op: "tx", K: []int{1 + r.Intn(1<<uint(nb)-1), r.Intn(nacc), r.Intn(nacc), kind}, V: int64(1 + r.Intn(900))}
 		case 1:
 			return &simkit.Step{Op: "build", A: r.Intn(nb)}
 		case 2:
@@ -389,7 +396,15 @@ func (e *env) doTx(st *simkit.Step) {
 				nonce++
 			}
 			amt := new(big.Int).Mul(big.NewInt(st.V), big.NewInt(1e15))
-			tx = simnode.SignedTx(e.net.Accounts[from], nonce, e.net.Accounts[to].Addr, amt, types.TxType_TRANSFER, nil, b.ChainIDHash(), 0)
+			switch nd {
+			case 3: // stake (governance: moves the voting-power rank kept in memory)
+				tx = simnode.SignedTx(e.net.Accounts[from], nonce, []byte(types.AergoSystem), new(big.Int).Set(types.StakingMinimum), types.TxType_GOVERNANCE, []byte(`{"Name":"v1stake"}`), b.ChainIDHash(), 0)
+			case 4: // vote for the first producer
+				tx = simnode.SignedTx(e.net.Accounts[from], nonce, []byte(types.AergoSystem), new(big.Int), types.TxType_GOVERNANCE,
+					[]byte(`{"Name":"v1voteBP","Args":["`+base58.Encode([]byte(e.net.BPIDs[int(st.V)%len(e.net.BPIDs)]))+`"]}`), b.ChainIDHash(), 0)
+			default:
+				tx = simnode.SignedTx(e.net.Accounts[from], nonce, e.net.Accounts[to].Addr, amt, types.TxType_TRANSFER, nil, b.ChainIDHash(), 0)
+			}
 		}
 		_ = b.Submit(tx)
 	}
@@ -532,7 +547,7 @@ func (e *env) doRestart() {
 }
 
 func (e *env) propOr(p string) string {
-	if e.prop == "C05" || e.prop == "C06" || e.prop == "C07" || e.prop == "C18" || e.prop == "C19" || e.prop == "C03" || e.prop == "C17" {
+	if e.prop == "C05" || e.prop == "C06" || e.prop == "C07" || e.prop == "C18" || e.prop == "C19" || e.prop == "C03" || e.prop == "C17" || e.prop == "C15" {
 		return e.prop
 	}
 	return p
@@ -645,6 +660,12 @@ func (e *env) doDeliver(l int) {
 			return
 		}
 	}
+	if e.prop == "C15" {
+		e.checkVprMemory(l, err)
+		if x.Failed() {
+			return
+		}
+	}
 	e.checkInvariants("after-deliver")
 	x.Digest(e.prop, len(e.stored), e.heightOf(e.best), len(e.orph), len(e.builders))
 }
@@ -693,6 +714,55 @@ func (e *env) checkBest(when string, l int) {
 		p := e.propOr("C07")
 		x.Fail(p, cls, sig, fmt.Sprintf("%s of block %d (%s): node best = label %d height %d, specified best = label %d height %d", when, l, forgeName[e.blocks[l].kind], got, nb.BlockNo(), e.best, e.heightOf(e.best)), e.step)
 	}
+}
+
+// checkVprMemory (C15): after every delivery - in particular after a block that was executed and then
+// refused, and after reorganizations - the voting-power rank a node keeps in memory equals the one
+// rebuilt from the persisted state of its best block.
+func (e *env) checkVprMemory(l int, derr error) {
+	x := e.x
+	n := e.nut
+	var eq bool
+	var err error
+	var live, re string
+	n.Do(func() {
+		scs, serr := statedb.GetSystemAccountState(n.CS.SDB().OpenNewStateDB(n.CS.SDB().GetRoot()))
+		if serr != nil {
+			err = serr
+			return
+		}
+		// voters, powers, total and bucket order are compared; the in-memory rank-order tree is left
+		// out (its corruption by in-place key mutation is a recorded known finding of the GOV world)
+		live = stripRankLines(system.VerifVprDump())
+		re, err = system.VerifVprDumpReload(scs)
+		re = stripRankLines(re)
+		eq = live == re
+	})
+	if err != nil {
+		x.Fail("C15", "vpr-unreadable", "chain", err.Error(), e.step)
+		return
+	}
+	if derr != nil {
+		x.Probe("vpr-checked-after-refused-block")
+	}
+	if !eq {
+		sig := "after-accepted-delivery"
+		if derr != nil {
+			sig = "after-refused-block"
+		}
+		x.Fail("C15", "vpr-differs-from-reload", "chain/"+sig, fmt.Sprintf("after delivering block %d (%s, err=%v) the voting-power rank in memory differs from the one rebuilt from the state of the best block: in memory {%s} rebuilt {%s}", l, forgeName[e.blocks[l].kind], derr, strings.ReplaceAll(live, "\n", " "), strings.ReplaceAll(re, "\n", " ")), e.step)
+	}
+}
+
+func stripRankLines(d string) string {
+	var keep []string
+	for _, l := range strings.Split(d, "\n") {
+		if strings.HasPrefix(l, "rank") {
+			continue
+		}
+		keep = append(keep, l)
+	}
+	return strings.Join(keep, "\n")
 }
 
 // checkAncestorSearch (C17, responder side): a node asked for the common ancestor with a list of
